@@ -272,6 +272,20 @@ func suiteParse(o *Out, thorough bool, seed int64) {
 		emit([]byte(strings.Join(parts, " ")), len(idx) >= 2)
 	})
 	o.Notes = append(o.Notes, fmt.Sprintf("exhaustive: all sequences of up to %d lexemes over a %d-lexeme alphabet, joined by one space", maxLen, len(parseLex)))
+	// the parser's only lookahead: a member name on the line after the dot, followed by any two lexemes
+	for _, base := range []string{"a", "f()", "a.b", "1"} {
+		for _, dot := range []string{".", "!."} {
+			for _, nl := range []string{"\n", "\r\n", "\u2028", " \n  "} {
+				for _, name := range []string{"b", "typeof", "null"} {
+					for _, z := range parseLex {
+						for _, w := range []string{"", "(((", "a", "#", "1", ")", "\xff\xfe", "'x", "+ 1"} {
+							emit([]byte(base+dot+nl+name+" "+z+" "+w), true)
+						}
+					}
+				}
+			}
+		}
+	}
 	r := newRand(seed, "parse")
 	n := 30000
 	if thorough {
